@@ -28,6 +28,8 @@ for p in (str(VERIF / "shims"), os.environ.get("DASHLIVE_REPO", "/repo"), str(HE
         sys.path.insert(0, p)
 os.environ.setdefault("DASHLIVE_VERIF", "1")
 
+import logging  # noqa: E402
+logging.disable(logging.CRITICAL)   # the code under test logs every refused request
 import common  # noqa: E402
 from common import log  # noqa: E402
 
